@@ -245,7 +245,14 @@ def run(prog, tier, extra=None):
             e = chs.origin(t["args"][0])
             if has_field(e, "transaction::Transaction", "from"):
                 loop_heads.append(bb)
-    tests = gate.bool_switch_edges(sweep, chs, lambda e: e[0] == "call" and e[1].rsplit("::", 1)[-1] in ("contains_key", "contains", "insert", "get"))
+    def asks_the_map(e):
+        # the branch condition is computed from a lookup in the map shared across the block's transactions
+        for x in walk(e):
+            if x[0] == "call" and x[1].rsplit("::", 1)[-1] in ("contains_key", "contains", "insert", "get", "entry") and x[2] and \
+                    any(y[0] == "param" and y[1] == 1 for y in walk(x[2][0])):
+                return True
+        return False
+    tests = gate.bool_switch_edges(sweep, chs, asks_the_map)
     test_blocks = set(tests["sites"])
     for bb, t in sweep.calls():
         if (call_name(t) or "").rsplit("::", 1)[-1] in ("insert", "entry") and t["args"] and any(x[0] == "param" and x[1] == 1 for x in walk(chs.origin(t["args"][0]))):
